@@ -97,7 +97,27 @@ pub fn canon(op: &Op) -> String {
                 .join(" ")
         ),
         Op::XObject { name } => format!("XObject({})", name.as_str()),
-        Op::InlineImage { image } => format!("InlineImage({}x{} bpc={:?})", image.width, image.height, image.bits_per_component),
+        Op::InlineImage { image } => {
+            let filters: Vec<String> = image.inner.filters.iter().map(|f| format!("{:?}", f).split(|c: char| !c.is_alphanumeric()).next().unwrap_or("").to_string()).collect();
+            let data = match catch(|| image.inner.data(&NoResolve)) {
+                Ok(Ok(d)) => show_bytes(&d),
+                Ok(Err(e)) => format!("error:{}", err_variant(&e)),
+                Err((loc, _)) => format!("panic:{}", loc),
+            };
+            format!(
+                "InlineImage({}x{} bpc={:?} cs={} mask={} decode={:?} interpolate={} intent={} filters=[{}] data={})",
+                image.width,
+                image.height,
+                image.bits_per_component,
+                image.color_space.as_ref().map(|c| format!("{:?}", c)).unwrap_or_else(|| "-".into()),
+                image.image_mask,
+                image.decode,
+                image.interpolate,
+                image.intent.map(|i| i.to_str()).unwrap_or("-"),
+                filters.join(","),
+                data
+            )
+        }
     }
 }
 pub fn canon_seq(ops: &[Op]) -> Vec<String> {
@@ -120,7 +140,56 @@ pub enum R {
     Dash(Vec<f32>, f32),
     ColorOther(&'static str, Vec<Val>),
     Marked(&'static str, &'static str, Option<Val>),
-    InlineImage,
+    /// index into `inline_images()`
+    InlineImage(usize),
+}
+
+/// inline image spellings: (text from BI to EI, the operation it denotes in canonical form)
+pub fn inline_images() -> Vec<(Vec<u8>, String)> {
+    use crate::pdfgen::filters as enc;
+    let gray = |sep: &[u8]| {
+        let mut t = b"BI /W 2 /H 1 /CS /G /BPC 8 ID \x10\xf0".to_vec();
+        t.extend_from_slice(sep);
+        t.extend_from_slice(b"EI");
+        (t, "InlineImage(2x1 bpc=Some(8) cs=DeviceGray mask=false decode=None interpolate=false intent=- filters=[] data=\\x10\\xf0)".to_string())
+    };
+    let mut v = vec![gray(b"\n"), gray(b" "), gray(b"\r"), gray(b"\t")];
+    // full key names, data that contains the letters EI without the white-space that would end it
+    v.push((
+        b"BI /Width 3 /Height 1 /ColorSpace /DeviceRGB /BitsPerComponent 8 /Interpolate true /Intent /Perceptual ID aEIbxEI.E\nEI".to_vec(),
+        "InlineImage(3x1 bpc=Some(8) cs=DeviceRGB mask=false decode=None interpolate=true intent=Perceptual filters=[] data=aEIbxEI.E)".to_string(),
+    ));
+    // stencil mask with a decode array
+    v.push((b"BI /W 8 /H 1 /IM true /D [1 0] ID \xa5\nEI".to_vec(), "InlineImage(8x1 bpc=None cs=- mask=true decode=Some([1.0, 0.0]) interpolate=false intent=- filters=[] data=\\xa5)".to_string()));
+    // abbreviated filter, hexadecimal data with its end marker
+    v.push((b"BI /W 2 /H 1 /CS /G /BPC 8 /F /AHx ID 10f0>\nEI".to_vec(), "InlineImage(2x1 bpc=Some(8) cs=DeviceGray mask=false decode=None interpolate=false intent=- filters=[ASCIIHexDecode] data=\\x10\\xf0)".to_string()));
+    // a filter chain with abbreviated names
+    let raw = [1u8, 2, 3, 250, 251, 252];
+    let mut t = b"BI /W 2 /H 1 /CS /RGB /BPC 8 /F [/A85 /Fl] ID ".to_vec();
+    t.extend_from_slice(&enc::a85_encode(&enc::flate_encode(&raw, enc::FlateStyle::ZlibDefault), enc::A85Style::Plain));
+    t.extend_from_slice(b"\nEI");
+    v.push((t, format!("InlineImage(2x1 bpc=Some(8) cs=DeviceRGB mask=false decode=None interpolate=false intent=- filters=[ASCII85Decode,FlateDecode] data={})", show_bytes(&raw))));
+    // decode parameters: one dictionary for one filter, an array (null for the filter without parameters) for a chain
+    let px = [10u8, 20, 30, 40, 50, 60];
+    let predicted = enc::flate_encode(&enc::png_predict(&px, 1, 8, 3, |_| 2), enc::FlateStyle::ZlibDefault);
+    let mut t = b"BI /W 3 /H 2 /CS /G /BPC 8 /F /AHx ID ".to_vec();
+    t.clear();
+    t.extend_from_slice(b"BI /W 3 /H 2 /CS /G /BPC 8 /F [/AHx /Fl] /DP [null << /Predictor 12 /Columns 3 >>] ID ");
+    t.extend_from_slice(&enc::hex_encode(&predicted, enc::HexStyle::Lower, true));
+    t.extend_from_slice(b"\nEI");
+    v.push((t, format!("InlineImage(3x2 bpc=Some(8) cs=DeviceGray mask=false decode=None interpolate=false intent=- filters=[ASCIIHexDecode,FlateDecode] data={})", show_bytes(&px))));
+    let mut t = b"BI /W 3 /H 2 /CS /G /BPC 8 /F /A85 ID ".to_vec();
+    t.clear();
+    t.extend_from_slice(b"BI /W 3 /H 2 /CS /G /BPC 8 /F [/A85 /Fl] /DecodeParms [null << /Predictor 12 /Columns 3 >>] ID ");
+    t.extend_from_slice(&enc::a85_encode(&predicted, enc::A85Style::Plain));
+    t.extend_from_slice(b"\nEI");
+    v.push((t, format!("InlineImage(3x2 bpc=Some(8) cs=DeviceGray mask=false decode=None interpolate=false intent=- filters=[ASCII85Decode,FlateDecode] data={})", show_bytes(&px))));
+    // indexed colour space with abbreviated names
+    v.push((
+        b"BI /W 8 /H 1 /CS [/I /RGB 1 <000000ffffff>] /BPC 1 ID \xa5 EI".to_vec(),
+        format!("InlineImage(8x1 bpc=Some(1) cs={:?} mask=false decode=None interpolate=false intent=- filters=[] data=\\xa5)", pdf::object::ColorSpace::Indexed(Box::new(pdf::object::ColorSpace::DeviceRGB), 1, vec![0u8, 0, 0, 255, 255, 255].into())),
+    ));
+    v
 }
 
 fn num_val(x: f32) -> Val {
@@ -190,7 +259,7 @@ pub fn r_text(r: &R) -> Vec<u8> {
             }
             out.extend_from_slice(k.as_bytes());
         }
-        R::InlineImage => out.extend_from_slice(b"BI /W 2 /H 1 /CS /G /BPC 8 ID \x10\xf0\nEI"),
+        R::InlineImage(i) => out.extend_from_slice(&inline_images()[*i].0),
     }
     out.push(b'\n');
     out
@@ -351,7 +420,7 @@ pub fn interpret(seq: &[R]) -> Vec<String> {
                     _ => push(Op::BeginMarkedContent { tag: (*tag).into(), properties }, &mut out),
                 }
             }
-            R::InlineImage => out.push("InlineImage(2x1 bpc=Some(8))".into()),
+            R::InlineImage(i) => out.push(inline_images()[*i].1.clone()),
         }
     }
     out
@@ -366,7 +435,7 @@ pub fn table() -> Vec<(&'static str, R)> {
             R::Quote2(..) => "\"",
             R::TJ(_) => "TJ",
             R::Dash(..) => "d",
-            R::InlineImage => "BI",
+            R::InlineImage(_) => "BI",
         };
         t.push((k, r));
     };
@@ -435,7 +504,9 @@ pub fn table() -> Vec<(&'static str, R)> {
     add(R::Marked("BMC", "Span", None));
     add(R::Marked("BDC", "Span", Some(Val::dict(vec![("MCID", Val::Int(0)), ("Lang", Val::str("en"))]))));
     add(R::Marked("BDC", "OC", Some(Val::name("MC0"))));
-    add(R::InlineImage);
+    for i in 0..inline_images().len() {
+        add(R::InlineImage(i));
+    }
     t
 }
 
@@ -573,13 +644,37 @@ pub fn op_alphabet() -> Vec<(&'static str, Op)> {
         ("EndMarkedContent", Op::EndMarkedContent),
         ("MarkedContentPoint", Op::MarkedContentPoint { tag: "Pt".into(), properties: None }),
         ("MarkedContentPoint:props", Op::MarkedContentPoint { tag: "Pt".into(), properties: Some(val_to_prim(&Val::dict(vec![("MCID", Val::Int(1))]))) }),
+        ("InlineImage", parsed_inline(0)),
+        ("InlineImage:rgb", parsed_inline(4)),
+        ("InlineImage:mask", parsed_inline(5)),
+        ("InlineImage:filters", parsed_inline(7)),
+        ("InlineImage:indexed", parsed_inline(10)),
+        ("InlineImage:parms", parsed_inline(9)),
+        ("InlineImage:built", built_inline()),
     ]
 }
+/// an inline image operation as the parser produces it
+fn parsed_inline(i: usize) -> Op {
+    let mut text = inline_images()[i].0.clone();
+    text.push(b'\n');
+    match parse_ops(&text, &NoResolve) {
+        Ok(mut ops) if ops.len() == 1 => ops.remove(0),
+        _ => built_inline(),
+    }
+}
+/// an inline image operation as an API user would build it (typed entries only)
+fn built_inline() -> Op {
+    use pdf::object::{ColorSpace, ImageDict, ImageXObject, Stream};
+    let dict = ImageDict { width: 2, height: 2, color_space: Some(ColorSpace::DeviceGray), bits_per_component: Some(8), ..Default::default() };
+    Op::InlineImage { image: std::sync::Arc::new(ImageXObject { inner: Stream::from_compressed(dict, vec![0u8, 0x45, 0x49, 0xff], vec![]) }) }
+}
 
-fn roundtrip_ops(ops: &[Op]) -> std::result::Result<(), (String, String)> {
+fn roundtrip_ops(ops: &[Op]) -> std::result::Result<bool, (String, String)> {
     let want = canon_seq(ops);
     let bytes = match catch(|| serialize_ops(ops)) {
         Err((loc, msg)) => return Err((panic_kind(&loc), msg)),
+        // the property is about sequences the serializer accepts: it rejects inline images (and nothing else)
+        Ok(Err(_)) if ops.iter().any(|o| matches!(o, Op::InlineImage { .. })) => return Ok(false),
         Ok(Err(e)) => return Err((format!("serialize-error:{}", err_variant(&e)), String::new())),
         Ok(Ok(b)) => b,
     };
@@ -589,7 +684,7 @@ fn roundtrip_ops(ops: &[Op]) -> std::result::Result<(), (String, String)> {
         Ok(Ok(back)) => {
             let got = canon_seq(&back);
             if got == want {
-                Ok(())
+                Ok(true)
             } else {
                 Err(("sequence-differs".into(), format!("{:?} written `{}` read back {:?}", want, show_bytes(&bytes), got)))
             }
@@ -610,7 +705,8 @@ fn engine_sequences(tier: Tier, tally: &mut Tally) {
                 t.evaluations += 1;
                 t.distinct_bulk += 1;
                 match roundtrip_ops(&ops) {
-                    Ok(()) => t.outcome("ok"),
+                    Ok(true) => t.outcome("ok"),
+                    Ok(false) => t.outcome("serializer-rejects-inline-image"),
                     Err((kind, detail)) => {
                         t.outcome(&kind);
                         let mut devs: Vec<String> = idx.iter().map(|&k| format!("op={}", alpha[k].0)).collect();
@@ -663,7 +759,8 @@ fn engine_sequences(tier: Tier, tally: &mut Tally) {
                         t.evaluations += 1;
                         t.distinct_bulk += 1;
                         match roundtrip_ops(&ops) {
-                            Ok(()) => t.outcome("ok"),
+                            Ok(true) => t.outcome("ok"),
+                            Ok(false) => t.outcome("serializer-rejects-inline-image"),
                             Err((kind, detail)) => {
                                 t.outcome(&kind);
                                 let mut devs: Vec<String> = idx.iter().map(|&k| format!("op={}", alpha[k].0)).collect();
@@ -716,7 +813,7 @@ fn engine_sequences(tier: Tier, tally: &mut Tally) {
                 t.evaluations += 1;
                 t.distinct.insert(fnv_mix(fnv_mix(a.to_bits() as u64, b.to_bits() as u64), si as u64));
                 match roundtrip_ops(ops) {
-                    Ok(()) => t.outcome("ok"),
+                    Ok(_) => t.outcome("ok"),
                     Err((kind, detail)) => {
                         t.outcome(&kind);
                         t.fail("c08.values", &kind, vec![format!("shape={}", si)], detail, json!({"engine": "c08.values", "a": a.to_bits(), "b": b.to_bits(), "shape": si}));
@@ -742,7 +839,7 @@ pub fn run(tier: Tier, _seed: u64, tally: &mut Tally) -> CheckMeta {
         prop: "C08",
         level: "model_checking",
         rule: format!("operator table: {} operator instances (every keyword of ISO 32000-1 Table A.1 with 1-8 operand sets) parsed alone and in every ordered pair ({} programs) against a reference interpreter that tracks the current point per the specification; serialize_ops -> parse_ops over all sequences of length <= 3 of a {}-symbol Op alphabet ({} sequences) and all sequences of length 4..{} over three shorthand-sensitive sub-alphabets; operand value pairs over 10 boundary reals x 9 shapes. Comparison is structural (canonical text; -0 == 0; int == real).", n_tab, n_tab * n_tab, n_alpha, n_alpha + n_alpha * n_alpha + n_alpha * n_alpha * n_alpha, if tier.thorough() { 6 } else { 5 }),
-        assumptions: vec!["inline images are parsed but not serialised (outside 'sequences the serializer accepts')".into(), "BX/EX are state markers without an operation".into()],
+        assumptions: vec!["the serializer rejects inline images with an error (outside 'sequences the serializer accepts'); any other serialisation error is a violation".into(), "BX/EX are state markers without an operation".into()],
         exhaustive: true,
         bounds: json!({"sequence_len": 3, "sub_alphabet_len": if tier.thorough() { 6 } else { 5 }}),
     }
